@@ -855,6 +855,16 @@ func newEnv(c *ApplyCase) *env {
 	return e
 }
 
+// step applies one message the way observeApply does, without observing
+func (e *env) step(i int, m MsgSpec) {
+	tx := m.tx(params.NetworkId())
+	e.st.Prepare(tx.Hash(), common.Hash{}, i)
+	snap := e.st.Snapshot()
+	if _, _, err := e.proc.ApplyTransaction(tx, e.signer, e.st, e.chain, e.header, nil, &e.used, e.rewards, e.gp, e.cfg, local.FakeRecorder()); err != nil {
+		e.st.RevertToSnapshot(snap)
+	}
+}
+
 // dry run of the staking handler on a copy of the state, set up the way
 // TxConverter.ApplyMessage calls it
 func (e *env) stakeOracle(tx *types.Transaction, so *StepObs) {
@@ -1181,7 +1191,7 @@ func genApply(r *vf.Rng) ApplyCase {
 			contracts = append(contracts, contractAddr(kind, i))
 		}
 	}
-	// shadow nonces / balances only to steer the generator towards valid input
+	// nonces / balances at generation time, only to steer the generator
 	nonce := map[int]uint64{}
 	bal := map[int]*big.Int{}
 	for k := 0; k < nKeys; k++ {
@@ -1206,17 +1216,22 @@ func genApply(r *vf.Rng) ApplyCase {
 	}
 	steps := 1 + r.Heavy(40)
 	usedMain := 0
+	live := newEnv(&c) // the implementation itself tells the generator where the accounts stand
 	for s := 0; s < steps; s++ {
+		for k := 0; k < nKeys; k++ {
+			nonce[k], bal[k] = live.st.GetNonce(keyAddr[k]), live.st.GetBalance(keyAddr[k])
+		}
 		if len(c.Msgs) > 0 && r.Chance(8) {
 			j := r.Intn(len(c.Msgs))
 			m := c.Msgs[j]
 			m.Replay = j + 1
 			c.Msgs = append(c.Msgs, m)
+			live.step(len(c.Msgs)-1, m)
 			continue
 		}
 		k := r.Intn(nKeys)
-		if r.Chance(60) { // prefer an account that can pay
-			for t := 0; t < 4 && bal[k].Cmp(big.NewInt(21000)) < 0; t++ {
+		if r.Chance(85) { // prefer an account that can pay
+			for t := 0; t < 8 && bal[k].Cmp(big.NewInt(4000000000000000)) < 0; t++ {
 				k = r.Intn(nKeys)
 			}
 		}
@@ -1314,17 +1329,17 @@ func genApply(r *vf.Rng) ApplyCase {
 		}
 		// price
 		var price *big.Int
-		switch p := r.Intn(10); {
+		switch p := r.Intn(30); {
 		case p == 0:
 			price = new(big.Int)
 		case p == 1:
 			price = big.NewInt(1)
-		case p == 2 && m.Gas > 0:
+		case p <= 3 && m.Gas > 0:
 			price = new(big.Int).Div(bal[k], new(big.Int).SetUint64(m.Gas)) // just affordable
 			if r.Bool() {
 				price.Add(price, big.NewInt(1)) // just not
 			}
-		case p == 3:
+		case p == 4:
 			price = new(big.Int).Mul(youUnit, big.NewInt(int64(1+r.Intn(1000))))
 		default:
 			price = big.NewInt(int64(1 + r.Intn(2000000000)))
@@ -1352,19 +1367,7 @@ func genApply(r *vf.Rng) ApplyCase {
 		}
 		m.Value = value.String()
 		c.Msgs = append(c.Msgs, m)
-		// shadow update (rough: only used to keep most transactions valid)
-		if !m.BadSig && m.Nonce == nonce[k] && rest.Sign() >= 0 && m.Gas >= ig && m.Gas <= c.Pool {
-			if m.Stk != nil || rest.Cmp(value) >= 0 {
-				nonce[k]++
-				bal[k] = new(big.Int).Sub(bal[k], new(big.Int).Mul(price, new(big.Int).SetUint64(ig)))
-				if m.Stk == nil && (kindOfTo <= 1 || kindOfTo >= 4) && to != nil {
-					bal[k].Sub(bal[k], value)
-				}
-				if bal[k].Sign() < 0 {
-					bal[k] = new(big.Int)
-				}
-			}
-		}
+		live.step(len(c.Msgs)-1, m)
 	}
 	return c
 }
